@@ -322,19 +322,27 @@ func (b *defaultBinder) Bind(req *protocol.Request, v interface{}, params param.
 
 // best effort binding
 func (b *defaultBinder) preBindBody(req *protocol.Request, v interface{}) error {
-	if req.Header.ContentLength() <= 0 {
-		return nil
-	}
+	// Whether there is a body is decided by the body, not by the length recorded in the
+	// header: that is -1 for a chunked body read as a stream and 0 for a request put
+	// together with SetBody, and the 'required' / 'default' checks look at req.Body() too.
 	ct := bytesconv.B2s(req.Header.ContentType())
 	switch strings.ToLower(utils.FilterContentType(ct)) {
 	case consts.MIMEApplicationJSON:
-		return hJson.Unmarshal(req.Body(), v)
+		body := req.Body()
+		if len(body) == 0 {
+			return nil
+		}
+		return hJson.Unmarshal(body, v)
 	case consts.MIMEPROTOBUF:
+		body := req.Body()
+		if len(body) == 0 {
+			return nil
+		}
 		msg, ok := v.(proto.Message)
 		if !ok {
 			return fmt.Errorf("%s can not implement 'proto.Message'", v)
 		}
-		return proto.Unmarshal(req.Body(), msg)
+		return proto.Unmarshal(body, msg)
 	default:
 		return nil
 	}
